@@ -74,7 +74,8 @@ POPS = {
     "conv1d_wb": (3, lambda L, t, a: L.sg.conv1d(t[0], t[1], t[2], 1, a["p"], 1), lambda x, a: R.conv_nd(x[0], x[1], x[2], 1, a["p"], 1, 1)),
     # a constant operand that the caller advances with an augmented assignment after the op was recorded (step counters, running offsets)
     "mul_const_then_iadd": (1, lambda L, t, a: _mul_const_then_iadd(L, t, a), lambda x, a: x[0] * np.asarray(a["c"], dtype=np.float64)),
-    "unfold2d": (1, lambda L, t, a: L.sg.unfold(t[0], a["k"], 1, a["s"], a["p"]), lambda x, a: R.unfold(x[0], a["k"], 1, a["s"], a["p"])),
+    "unfold2d": (1, lambda L, t, a: L.sg.unfold(t[0], a["k"], 1, a["s"], tuple(a["p"]) if isinstance(a["p"], list) else a["p"]),
+                 lambda x, a: R.unfold(x[0], a["k"], 1, a["s"], tuple(a["p"]) if isinstance(a["p"], list) else a["p"])),
     "ce_const": (1, lambda L, t, a: L.sg.cross_entropy(t[0], L.Tensor(np.asarray(a["target"], dtype=np.int64))),
                  lambda x, a: R.cross_entropy(x[0], np.asarray(a["target"]))),
     "bce_logits": (2, lambda L, t, a: L.sg.binary_cross_entropy_with_logits(t[0], L.sg.sigmoid(t[1])),
@@ -359,6 +360,8 @@ def generate(rng, n_instr, n_leaves, allow_kinks=False, big=False, leaves=None, 
                 if r != 3 or x[0].shape[2] < 2:
                     continue
                 args = {"k": 2, "s": int(rng.integers(1, 3)), "p": int(rng.integers(0, 2))}
+                if rng.random() < 0.4:
+                    args["p"] = [[1, 0], [0, 1], [2, 0], [0, 2]][int(rng.integers(4))]          # padding on one axis only
             elif op == "conv1d_const":
                 if r != 3:
                     continue
